@@ -566,15 +566,22 @@ def assume(c):
     cur().assume(c)
 
 
+def _materialise(detail):
+    rp = detail.get('replay')
+    if callable(rp):
+        detail['replay'] = rp()          # evaluated now, while the violating path's model is current
+    return detail
+
+
 def fail(msg, **detail):
-    raise Violation(msg, detail)
+    raise Violation(msg, _materialise(detail))
 
 
 def require(cond, msg, **detail):
     """assert-as-branch: the violating side, if feasible, is executed and raises Violation with a model"""
     if cond:
         return
-    raise Violation(msg, detail)
+    raise Violation(msg, _materialise(detail))
 
 
 def ev(x):
